@@ -404,7 +404,7 @@ class CallMixin(ExprMixin):
         self.assume(z3.ForAll([i], z3.Implies(z3.And(0 <= i, i < n), z3.And(0 <= z3.Select(perm, i), z3.Select(perm, i) < n,
                                                                                   z3.Select(pinv, z3.Select(perm, i)) == i,
                                                                                   z3.Select(oel, i) == z3.Select(el, z3.Select(perm, i)))),
-                                 patterns=[z3.Select(perm, i)]))
+                                 patterns=[z3.Select(perm, i), z3.Select(oel, i)]))
         self.assume(z3.ForAll([j], z3.Implies(z3.And(0 <= j, j < n), z3.And(0 <= z3.Select(pinv, j), z3.Select(pinv, j) < n,
                                                                                   z3.Select(perm, z3.Select(pinv, j)) == j)),
                                  patterns=[z3.Select(pinv, j)]))
